@@ -226,6 +226,9 @@ def nonlinear_constraints(rng, n, x0, count=None, forms=("nlc",),
                 else:
                     c["d"] = c["d"] - shift
         ent["scalar"] = bool(m == 1 and rng.random() < 0.5)
+        if form != "nlc" and rng.random() < 0.5:
+            # dict constraint with an extra argument: fun(x, a) = c(x) + a
+            ent["cargs"] = [float(np.round(rng.uniform(-0.5, 0.5), 3))]
         out.append(ent)
     return out
 
